@@ -199,7 +199,9 @@ class Sim:
                 _, h, w, c, wr, pix, strided = op
                 shape = (h, w) if c == 1 else (h, w, 3)
                 a = np.array(pix, np.uint8).reshape(shape)
-                if strided:
+                if strided == 2:                    # same pixels, axes permuted IN MEMORY (what img.T.copy().T, np.rot90 or a CHW tensor viewed as HWC give)
+                    a = np.ascontiguousarray(a.swapaxes(0, 1)).swapaxes(0, 1)
+                elif strided:
                     big = np.zeros((h * 2, w * 2) + shape[2:], np.uint8)
                     big[::2, ::2] = a
                     a = big[::2, ::2]
